@@ -156,7 +156,14 @@ func (r *runner) exec(c *Case, fresh bool) (res implResult) {
 			res.nilResp = true
 		}
 	case "update":
-		rpl, err := e.R.UpdateContainer(ctx, &api.UpdateContainerRequest{Pod: pod, Container: &api.Container{Id: c.Req.ID, PodSandboxId: "pod0"}, LinuxResources: items.BuildResources(c.Req.Orig)})
+		lres := items.BuildResources(c.Req.Orig)
+		if d := reqDeviceRules(c); d != nil {
+			if lres == nil {
+				lres = &api.LinuxResources{}
+			}
+			lres.Devices = d
+		}
+		rpl, err := e.R.UpdateContainer(ctx, &api.UpdateContainerRequest{Pod: pod, Container: &api.Container{Id: c.Req.ID, PodSandboxId: "pod0"}, LinuxResources: lres})
 		res.err = err
 		if rpl != nil {
 			res.updates = rpl.Update
@@ -388,4 +395,29 @@ func replay(f *rep.Flags) {
 		os.Exit(1)
 	}
 	fmt.Println("no violation")
+}
+
+// reqDeviceRules: a fully populated update request also carries device cgroup rules. No plugin of the
+// alphabet touches them, so every plugin must be shown them and the updated container's entry - the
+// runtime-requested resources overlaid with the plugins' changes - must still carry them.
+func reqDeviceRules(c *Case) []*api.LinuxDeviceCgroup {
+	if c.Req.Kind != "update" || c.Prepop != "full" {
+		return nil
+	}
+	return []*api.LinuxDeviceCgroup{
+		{Allow: false, Type: "a", Access: "rwm"},
+		{Allow: true, Type: "c", Major: api.Int64(int64(5)), Minor: api.Int64(int64(7)), Access: "rw"},
+	}
+}
+
+func sameDeviceRules(a, b []*api.LinuxDeviceCgroup) bool {
+	if len(a) != len(b) {
+		return false
+	}
+	for i := range a {
+		if !proto.Equal(a[i], b[i]) {
+			return false
+		}
+	}
+	return true
 }
